@@ -141,6 +141,27 @@ def _gen_one(p):
     return dict(ok=False, kind=kind, msg=str(payload)[:200], exc=exc)
 
 
+def _gen_reuse(plist):
+    """ONE ScenarioGenerator object asked for several scenarios in a row (different shapes): each result is judged
+    like any other; what an earlier call left behind in the object must not leak into a later one"""
+    sys.path[:0] = [p for p in (corpus.REPO,) if p not in sys.path]
+    from nasim.scenarios.generator import ScenarioGenerator
+    g = ScenarioGenerator()
+    out = []
+    for p in plist:
+        try:
+            with gen.counted_rng(gen.DRAW_BOUND) as st:
+                scn = g.generate(**p)
+            r = export_generated(scn)
+            r["draws"] = st["n"]
+        except gen.DrawBoundExceeded as ex:
+            r = dict(ok=False, kind="draw_bound", msg=str(ex)[:200], exc="draw_bound")
+        except Exception as ex:      # noqa
+            r = dict(ok=False, kind="raised", msg="%s: %s" % (type(ex).__name__, str(ex)[:200]), exc=type(ex).__name__)
+        out.append(r)
+    return out
+
+
 def kf_signature_c15(params, result):
     """signatures of the open known findings of C15"""
     if (not result["ok"]) and result.get("exc") == "ZeroDivisionError" and not params.get("uniform", False) \
@@ -277,6 +298,23 @@ def check_c15(prop, tier, seed):
     import concurrent.futures as cf
     with cf.ProcessPoolExecutor(max_workers=14, mp_context=mp.get_context("fork")) as ex:   # non-daemonic workers
         results = list(ex.map(_gen_one, [p for _, p in plist], chunksize=4))
+    # the same generator object reused for scenarios of different shapes
+    rrng = random.Random(seed + 17)
+    seqs = []
+    for i in range(6 if tier == "quick" else 40):
+        seq = []
+        for j in range(3):
+            p = random_params(rrng, 90000 + 10 * i + j + 7919 * seed)
+            if abs(float(p.get("alpha_V", 2.0)) - 1.0) < 1e-12:
+                p["alpha_V"] = 2.0
+            p["uniform"] = False
+            seq.append(p)
+        seqs.append(seq)
+    with cf.ProcessPoolExecutor(max_workers=6, mp_context=mp.get_context("fork")) as ex:
+        for i, (seq, rs) in enumerate(zip(seqs, ex.map(_gen_reuse, seqs))):
+            for j, (p, r_) in enumerate(zip(seq, rs)):
+                plist.append(("reuse%d-%d" % (i, j), p))
+                results.append(r_)
     kfs0 = {k["signature"]: k for k in common.open_findings(prop)}
     op_lines, op_cov = operational_stage(tier, seed, v, kfs0)
     for j, (p_, r_) in enumerate(op_lines):
